@@ -2,7 +2,7 @@
 """Run the property's own check against every seeded change (in the scratch worktree /tmp/seedcheck,
 via VERIF_REPO, evidence redirected) and record the outcome in seeded/<id>/meta.json."""
 import os, sys, json, subprocess, re, glob
-W = '/tmp/seedcheck'
+W = os.environ.get('SEED_W', '/tmp/seedcheck')
 def sh(cmd, cwd=W, timeout=3600, env=None):
     p = subprocess.run(cmd, shell=True, cwd=cwd, capture_output=True, text=True, timeout=timeout, env=env)
     return p.returncode, p.stdout + p.stderr
